@@ -134,8 +134,12 @@ impl BigRat {
 		})
 	}
 
-	pub(crate) fn is_integer(&self) -> bool {
-		self.den == 1.into()
+	pub(crate) fn is_integer<I: Interrupt>(&self, int: &I) -> FResult<bool> {
+		// the fraction is not necessarily stored in lowest terms (e.g. 6/3)
+		if self.den == 1.into() {
+			return Ok(true);
+		}
+		Ok(self.num.divmod(&self.den, int)?.1 == 0.into())
 	}
 
 	pub(crate) fn try_as_biguint<I: Interrupt>(mut self, int: &I) -> FResult<BigUint> {
